@@ -846,6 +846,8 @@ func (f *filterQuery) Select(t iterator) NodeNavigator {
 
 func (f *filterQuery) Evaluate(t iterator) interface{} {
 	f.Input.Evaluate(t)
+	f.posit = 0
+	f.positmap = nil
 	return f
 }
 
